@@ -20,6 +20,8 @@ def histories(rng, tier):
         h = [c.line(), 'state %s' % c.name]
         for _ in range(rng.randint(3, 14)):
             r = rng.random()
+            if rng.random() < 0.04:
+                h += gen.roundtrip_lines(rng, c.name)                # continue on the map as read back from a file
             if r < 0.1:
                 h.append(gen.bad_upd_line(rng, c))
             elif r < 0.3:
